@@ -388,8 +388,14 @@ def replaceDouble : Str → Str
   | b :: r => b :: replaceDouble r
   | [] => []
 
-/-- `CleanSpace` (util.go): two replacement passes, then TrimSpace — as the code is -/
-def cleanSpace (s : Str) : Str := trimSpace (replaceDouble (replaceDouble s))
+/-- `strings.Replace(s, "  ", " ", -1)` repeated while the string contains two spaces in a row:
+    every run of spaces becomes one space -/
+def collapseRuns : Str → Str
+  | [] => []
+  | b :: r => if b == 32 && r.head? == some 32 then collapseRuns r else b :: collapseRuns r
+
+/-- `CleanSpace` (util.go): collapse every run of spaces, then TrimSpace — as the code is -/
+def cleanSpace (s : Str) : Str := trimSpace (collapseRuns s)
 
 /-- second group of `nameRegexp = ([^/]*)(/[^/]*/)?(.*)`: the first `/…/` after the slash-free
     prefix, slashes included; empty when there is no closing slash -/
